@@ -11,7 +11,10 @@ CHECKS = {
              "between rewriting): every comparison phrase means the integer comparison it names, and 'required' is the exact complement "
              "of 'prohibited' for all integers (lia/case analysis, unbounded), including 'between' with plain and aggregate operands. "
              "The hand-written control-flow model of convert_operation is tied by exact-text correspondence on every phrase x polarity x "
-             "5 operand shapes, and the property itself is observed under clingo on an integer grid.",
+             "5 operand shapes, and the property itself is observed under clingo on an integer grid; further shapes are observed only (no text "
+             "model): a threshold given by 'where M is one of', counted quantities on both sides and as bounds of 'between' (every "
+             "combination of 0..3 items per concept), and angle-valued operands (compared in whole turns: each value is accepted by "
+             "exactly one of the requirement and the prohibition).",
         note="Trusted: Coq kernel; tabulation-by-execution translator; hand model of convert_operation (correspondence-checked); clingo for the oracle; "
              "Lark's parse of the template sentences.",
         technique="Coq proof over generated tables + model/implementation text correspondence + clingo grid oracle",
@@ -88,7 +91,8 @@ CHECKS['C18'] = dict(
          "by mutual structural induction), the output file is never opened when compile() raises or in -c/--symbols/--cnl2json mode "
          "(C18_no_partial_output, C18_no_output_in_query_modes), the parser diagnostic is built by a total function and cites line and "
          "column first. Tie: translator (fail-closed) + function-level correspondence of ParserError text; oracle: the real command line "
-         "run as a subprocess on valid, damaged and arbitrary inputs with flags and output file, diagnostic position compared with Lark's.",
+         "run as a subprocess on valid, damaged (incl. form feeds and the other characters str.splitlines() takes for line boundaries) and "
+         "arbitrary inputs with flags and output file, diagnostic position compared with Lark's.",
     note="Trusted: Coq kernel; the ast translator and its call classification (listed in Gen/MainSkeleton.v: main_sites); argparse, interpreter exit, "
          "file system not modelled; -o and --debug fixed to false.",
     technique="Coq proof over a control skeleton regenerated from the source (guard soundness by mutual induction) + subprocess oracle",
@@ -115,8 +119,9 @@ CHECKS['C12'] = dict(
          "once for all state and result types), the footprints of compile / get_symbols / check_syntax / cnl_to_json computed from the "
          "summary, and C12_footprints_pure: every variable an API method reads before resetting it is an option no API method writes "
          "(so C12_history_independent applies to every history). Dynamic part: random histories of 0-6 API calls on accepted and "
-         "rejected inputs in one process vs the same call in a fresh process, under several PYTHONHASHSEEDs (the hash-seed clause is "
-         "decided by these runs only: partial).",
+         "rejected inputs in one process vs the same call in a fresh process, under several PYTHONHASHSEEDs, plus directed histories "
+         "(every regression text after all the others in two orders and after single predecessors; pairs of texts of which one "
+         "declares what the other only mentions, through every API call). The hash-seed clause is decided by these runs only: partial.",
     note="Trusted: Coq kernel; the effect translator (variables reached by class/module name only; instance state is per call); Lark's own error text is "
          "canonicalised to class+position (its expected-token list is in set order); uuid4 normalised.",
     technique="Coq frame theorem over effect footprints regenerated from the source + history-vs-fresh-process differential runs",
@@ -191,9 +196,11 @@ CHECKS['C15'] = dict(
          "set of the stream (signature records serialised from ClingoResultParser). Theorem: sentence shape (C15_sentence_shape), with a "
          "worked example for the repaired letter case. The property itself is decided per answer set by the oracle on the implementation: "
          "exactly one sentence per atom of a defined concept and none for others, distinct atoms give distinct sentences, every argument "
-         "value and the concept name occur in the sentence, and - for wide-generator specifications, whose concepts are all declared - "
-         "compiling declarations + explanation gives a single answer set equal to the explained atoms. Partial: mentions-all / injectivity "
-         "are not proved in Coq; telingo traces are covered by the repository's own tests only.",
+         "value and the concept name occur in the sentence, and - strictly, for the atoms of DECLARED concepts of every specification - "
+         "compiling declarations + explanation gives a single answer set equal to the explained atoms (two known findings: unquoted "
+         "values, a declared concept explained as a relation). Telingo traces (corpus problems and chains of up to 12/22 states) are "
+         "explained state by state: the headings are the states of the trace in order and each state holds exactly the sentences of its "
+         "atoms. Partial: mentions-all / injectivity are not proved in Coq.",
     note="Trusted: Coq kernel; clingo for answer sets; serialisation of the parser's signature records; explanations of atoms with several possible subjects are outside the model (counted).",
     technique="byte-exact Coq model of the sentence builder + per-answer-set oracle incl. read-back compilation",
     design="6.C15")
